@@ -19,10 +19,10 @@ REJECT = object()
 
 # compact alphabet for the bounded-exhaustive part
 ALPHABET = ['app1', 'app2x', 'applist', 'appscalar', 'app0', 'iter2', 'iter0',
-            'itergen', 'set', 'trunc0', 'trunc1', 'truncm1', 'trunclen',
+            'itergen', 'set', 'trunc0', 'trunc1', 'truncm1', 'truncbelow', 'trunclen',
             'truncstr', 'badshape', 'badrank', 'modecycle', 'reopen']
 # additional ops for long random histories
-EXTRA = ['setscalar', 'trunclen1', 'truncfloat', 'truncmid', 'app3',
+EXTRA = ['setscalar', 'trunclen1', 'truncfloat', 'truncmid', 'truncneg2', 'app3',
          'recreate', 'recreate_fill', 'md_set', 'md_pop', 'md_clear', 'itergen3']
 STARTS = [(0,), (3,), (0, 2), (2, 2), (2, 1, 3)]
 
@@ -93,7 +93,7 @@ def build(op, ref, rng, meta):
     if op.startswith('trunc'):
         idx = {'trunc0': 0, 'trunc1': 1, 'truncm1': -1, 'trunclen': n,
                'trunclen1': n + 1, 'truncstr': 'x', 'truncfloat': 1.0,
-               'truncmid': n // 2}[op]
+               'truncmid': n // 2, 'truncbelow': -(n + 2), 'truncneg2': -2}[op]
         if type(idx) is int and 0 <= len(ref[:idx]) < n:
             exp = ref[:idx].copy()
         else:
